@@ -2502,10 +2502,32 @@ fn core_word_join(xs: &mut State) -> Xresult {
     xs.push_data(Cell::from(s))
 }
 
+// Cell's own ordering calls values of different types equal, which is not a
+// total order (the standard sort may panic on one): order types first
+fn sort_order(a: &Cell, b: &Cell) -> std::cmp::Ordering {
+    fn rank(c: &Cell) -> u8 {
+        match c {
+            Cell::Nil => 0,
+            Cell::Flag(_) => 1,
+            Cell::Int(_) => 2,
+            Cell::Real(_) => 3,
+            Cell::Str(_) => 4,
+            Cell::Bitstr(_) => 5,
+            Cell::Vector(_) => 6,
+            Cell::Map(_) => 7,
+            _ => 8,
+        }
+    }
+    match (a.value(), b.value()) {
+        (Cell::Real(x), Cell::Real(y)) => x.total_cmp(y),
+        (x, y) => x.partial_cmp(y).unwrap_or_else(|| rank(x).cmp(&rank(y))),
+    }
+}
+
 fn core_word_sort(xs: &mut State) -> Xresult {
     let v = xs.pop_data()?.to_vec()?;
     let mut tmp: Vec<Cell> = v.iter().cloned().collect();
-    tmp.sort();
+    tmp.sort_by(sort_order);
     let sorted = Xvec::from_iter(tmp.into_iter());
     xs.push_data(Cell::from(sorted))
 }
